@@ -286,7 +286,7 @@ pub fn subchecks(tier: Tier) -> Vec<SubCheck> {
     vec![generated(
         "compare_vs_reference",
         "pairs (a, b): b derived from a (identical, identical after collapsing only, <= 8 edits per block hash, transplanted 6/7/8-gram, unrelated), block-size relation eq/x2/:2/far with the comparable block hashes crossed accordingly, raw/collapsed/with-name spelling, short and long; every entry point in both orders; non-trivial = 0 < reference score < 100; distinct by the two texts",
-        tier.pick(400_000, 6_000_000),
+        tier.pick(800_000, 10_000_000),
         strategy,
         eval,
     )]
